@@ -52,7 +52,10 @@ pub fn exec_cmd(push_state: &mut PushState, _instruction_cache: &InstructionCach
         if num_args > -1 {
             if let Some(mut nvals) = push_state.name_stack.pop_vec((num_args+1) as usize) {
                 let cmd = nvals.remove(0);
+                #[cfg(not(feature = "verif"))]
                 thread::sleep(Duration::from_millis(1000));
+                #[cfg(feature = "verif")]
+                if !crate::push::verif::advance_clock(1000) { thread::sleep(Duration::from_millis(1000)); }
                 let mut child = Command::new(cmd).args(nvals).spawn().expect("Command failed to start");
 
                 if let Some(stdout) = child.stdout.as_mut() {
